@@ -10,7 +10,7 @@ use laythe_core::{
   hooks::GcHooks,
   object::{Fun, FunBuilder}, Chunk,
 };
-use std::{cell::RefCell, rc::Rc};
+use std::{cell::RefCell, collections::HashMap, rc::Rc};
 
 struct VecCursor<T> {
   vec: Vec<T>,
@@ -335,15 +335,54 @@ fn apply_stack_effects(fun_builder: &mut FunBuilder, instructions: &mut [Symboli
   let params = fun_builder.parameter_slots() as i32;
   let mut slots: i32 = 1;
 
+  // the depth each label is entered with, recorded by the transfers that target it
+  let mut label_slots: HashMap<u32, i32> = HashMap::new();
+  let mut fallthrough = true;
+
   for instruction in instructions {
+    // code after an unconditional transfer is only reached through its label,
+    // so it continues with the depth of the jumps that arrive there
+    if let SymbolicByteCode::Label(label) = instruction {
+      if let Some(target_slots) = label_slots.get(&label.val()) {
+        if !fallthrough {
+          slots = *target_slots;
+        }
+      }
+    }
+
     if let SymbolicByteCode::PushHandler((_, label)) = instruction {
       // TODO handle to many slots
       *instruction = SymbolicByteCode::PushHandler(((slots + params) as u16, *label))
     }
 
+    let before = slots;
     slots += instruction.stack_effect();
     debug_assert!(slots >= 0);
     fun_builder.update_max_slots(slots);
+
+    match *instruction {
+      // a taken short circuit keeps its operand, an unwind resets to the depth at the push
+      SymbolicByteCode::And(label)
+      | SymbolicByteCode::Or(label)
+      | SymbolicByteCode::PushHandler((_, label)) => {
+        label_slots.entry(label.val()).or_insert(before);
+      },
+      SymbolicByteCode::JumpIfFalse(label)
+      | SymbolicByteCode::Jump(label)
+      | SymbolicByteCode::CheckHandler(label) => {
+        label_slots.entry(label.val()).or_insert(slots);
+      },
+      _ => (),
+    }
+
+    fallthrough = !matches!(
+      *instruction,
+      SymbolicByteCode::Jump(_)
+        | SymbolicByteCode::Loop(_)
+        | SymbolicByteCode::Return
+        | SymbolicByteCode::Raise
+        | SymbolicByteCode::ContinueUnwind
+    );
   }
 }
 
